@@ -36,6 +36,11 @@ def main():
     args = ap.parse_args()
     del b
     master = int(os.environ.get("VERIF_SEED", "0") or 0)
+    os.environ.pop("RP2SIM_SESSION", None) if args.cmd != "replay" else None
+    runner.scratch_base()
+    import atexit  # pylint: disable=import-outside-toplevel
+
+    atexit.register(runner.cleanup_session)
     try:
         if args.cmd == "build":
             print(runner.ensure_shim())
